@@ -11,6 +11,10 @@ Oracle = ordering predicate on the trace, no reference scheduler:
                remove() call.
 Doers that end by abort (the faulting doer and the DoDoers the exception unwinds
 through) are not members of S: they necessarily exit first.
+A doer that removed itself from its scheduler's list keeps running (documented and
+upstream-tested); if it is still alive at the stop it is a member of S like any
+other and its exit is ordered by when it was entered.  Not ordered: a pair (a, b)
+where b was added by a call made from a's own enter context (nested enters).
 """
 from vlib import sched, schedgen
 from vlib.core import Result
@@ -23,15 +27,20 @@ ASSUMPTIONS = C01.ASSUMPTIONS + ["enter order = order of the enter events in the
 
 
 def order_check(run, group, what):
-    """group: list of (name, enter_seq, exit_seq). Returns message or None."""
+    """group: list of (name, enter_seq, exit_seq). Returns [(message, pair)] for every pair out of order."""
+    out = []
     g = sorted(group, key=lambda t: t[1])
     for i in range(len(g)):
         for j in range(i + 1, len(g)):
             a, b = g[i], g[j]
+            if sched.nested_enter(run, a[1], a[0], b[1]):
+                # b was added by a call made from a's own enter context: a's enter began first, b's finished first;
+                # which of the two "was entered first" is a matter of reading, the pair is not ordered
+                continue
             if not (b[2] < a[2]):
-                return "%s: %s entered before %s but exited before it (enter seq %d < %d, exit seq %d < %d)" % (
-                    what, a[0], b[0], a[1], b[1], a[2], b[2])
-    return None
+                out.append(("%s: %s entered before %s but exited before it (enter seq %d < %d, exit seq %d < %d)" % (
+                    what, a[0], b[0], a[1], b[1], a[2], b[2]), (a[0], b[0])))
+    return out
 
 
 def closed_groups(run):
@@ -80,6 +89,18 @@ def judge(prog, run, r):
         r.fail("C02/exit-after-run-returned", "%r" % [(e[1], e[2]) for e in run.late][:6])
         return []
     groups = closed_groups(run)
+    # a doer that was entered a second time while its first lifecycle was still running (two generators for one doer) has
+    # no single place in the enter order: that defect is C01's / C06's to report, its exits are not ordered here
+    openl, twice = set(), set()
+    for e in run.ev:
+        if e[1] == "E":
+            if e[2] in openl:
+                twice.add(e[2])
+            openl.add(e[2])
+        elif e[1] == "X":
+            openl.discard(e[2])
+    if twice:
+        groups = [(what, [it for it in items if it[0] not in twice]) for what, items in groups]
     hostname = {}
     for n, h in run.ctx.host.items():
         hostname[n] = getattr(h, "vname", None) or "doist"
@@ -94,31 +115,49 @@ def judge(prog, run, r):
         if best is None:
             return hostname.get(name, "?")
         return getattr(best, "vname", None) or "doist"
+    seen_sigs = set()
     for what, items in groups:
         # the statement is per scheduler: the doers one scheduler closes are its own doers, so the
         # reverse-enter-order clause is applied among the doers of one host (an aborting DoDoer has to close
         # its children while the exception unwinds, before outer schedulers close theirs)
         by_host = {}
+        gone = set()
         for it in items:
             h = host_at(it[0], it[1])
             members = run.doers if h == "doist" else run.kids.get(h, [])
             call = getattr(run, "group_call", {}).get(what)
             if call is not None and call["host"] == h:
                 members = call["before"]          # the doers the scheduler had when remove() was called on it
-            if it[0] not in members and (what == "final stop" or h != "doist"):
-                # a doer that removed itself keeps running but is no longer one of the scheduler's
-                # doers: its place in the closing order is not defined by the statement.  This also holds
-                # for the children of a DoDoer that is force-closed inside a remove() call of an outer
-                # scheduler (the DoDoer closes whatever it still runs; only its members are ordered).
-                continue
+            if it[0] not in members:
+                # a doer that removed itself (public, upstream-tested: it keeps running until it returns) is no longer
+                # listed but it is still alive and it was entered: "every still-alive doer is exited ... in the reverse
+                # of the order the doers were entered" orders its forced exit by when it was entered, like any other
+                gone.add(it[0])
             by_host.setdefault(h, []).append(it)
         for h, sub in sorted(by_host.items()):
-            msg = order_check(run, sub, "%s, doers of %s" % (what, h))
-            if msg:
+            # one failure per kind of pair (a case may show a listed finding and something else at once: neither hides
+            # the other)
+            for msg, pair in order_check(run, sub, "%s, doers of %s" % (what, h)):
                 midcycle = run.exc is not None or what.startswith("remove")
-                r.fail("C02/exit-order", msg + (" [stop in the middle of a cycle]" if midcycle else
-                                                " [stop at a cycle boundary]"))
-                return groups
+                selfrem = [n for n in pair if n in gone]
+                # entered by an extend() made from another doer's enter context, i.e. while the scheduler was still
+                # entering the doers listed before it: its list position is behind doers that were entered after it
+                inenter = [n for n, es, _x in sub if n in pair and any(
+                    c["op"] == "extend" and c.get("where") == "enter" and c["seq0"] <= es < c.get("seq1", 10 ** 9)
+                    for c in run.calls)]
+                sig = ("C02/exit-order-after-self-remove" if selfrem else
+                       "C02/exit-order-after-enter-context-extend" if inenter else "C02/exit-order")
+                if sig in seen_sigs:
+                    continue
+                seen_sigs.add(sig)
+                r.fail(sig,
+                       msg + (" [stop in the middle of a cycle]" if midcycle else " [stop at a cycle boundary]") +
+                       (" [%s had removed itself from %s.doers and was still running]" % (", ".join(selfrem), h)
+                        if selfrem else "") +
+                       (" [%s was added by extend() from another doer's enter context]" % ", ".join(inenter)
+                        if inenter else ""))
+    if seen_sigs:
+        return groups
     # children before parent: child X between parent's 'x' (exit begin) and parent's 'X'
     parent_of = {n: h for n, h in hostname.items() if h != "doist"}
     xs = {}
@@ -165,7 +204,8 @@ def run_case(prog):
 def searches(tier):
     q = tier == "quick"
     full, nomem = C01._strategies()
-    return [("faults", nomem, 600 if q else 8000),
+    return [("enter-context-calls", C01._enter_ctx_strategy(), 300 if q else 5000),
+            ("faults", nomem, 600 if q else 8000),
             ("faults+membership", full, 600 if q else 8000),
             ("group-membership", C01._group_strategy(), 600 if q else 8000),
             ("same-cycle-calls", schedgen.same_cycle_program(), 400 if q else 6000)]
